@@ -28,7 +28,10 @@ def scratch():
         _scratch = tempfile.mkdtemp(prefix="verif-", dir=base)
         import atexit
 
-        atexit.register(shutil.rmtree, _scratch, True)
+        if not os.environ.get("VERIF_KEEP"):
+            atexit.register(shutil.rmtree, _scratch, True)
+        else:
+            sys.stderr.write(f"[keeping TLC scratch {_scratch}]\n")
     return _scratch
 
 
